@@ -1,5 +1,23 @@
 (* Proofs/Prune.v -- C18: hidden (display:none) subtrees are equivalent to deleted subtrees at
-   the DOM -> render tree stage; document styles have no effect unless enabled. *)
+   the DOM -> render tree stage; document styles have no effect unless enabled.
+
+   Main results (all closed under the global context):
+   (2) computed_style_sim     no :nth-child in the sheet => the computed style depends only on
+                              names/classes/ids of the element and its ancestors, not on indices
+       process_sim_gen        ... hence `process` does not depend on any element index
+   (1) local_deletion_gen     a child yielding `Ok None` is as good as absent, for every parent
+       local_deletion_hidden  ... in particular a hidden element child
+   (3) prune_equiv            dom_to_render_tree sd udc inl doc = ... (prune_doc sd udc inl doc)
+       prune_doc_idem         prune_doc leaves no hidden element behind
+       to_render_tree_prune, to_render_tree_prune_doc, to_render_tree_prune_nodoccss (Api)
+   (4) nodoccss_frontend_indep, nodoccss_strip, nodoccss_styles_irrelevant
+   Observations (section 8): ex_nth_needed (the hypothesis is necessary),
+   style_in_hidden_subtree (rules of a <style> inside a hidden subtree still apply),
+   svg_style_is_text (a non-html <style> element's CSS source is rendered as text).
+
+   Element indices (`idx`, what :nth-child tests): `process` numbers the ELEMENT children of a
+   parent 1, 2, ... (text, comments, doctype do not count, hidden elements do); deleting an
+   element child therefore lowers the index of every later element sibling by one. *)
 From H2T Require Import Base Tagged Wrap Css Dom Api CssParse.
 From Coq Require Import Lia ZifyN ZifyBool ZifyNat.
 From Coq Require String Ascii.
@@ -373,6 +391,22 @@ Section Prune.
     destruct (ws_val (c_display (cs_core (computed_style sd me inls)))); [reflexivity|discriminate H].
   Qed.
 
+  Lemma process_hidden : forall html name attrs kids p idx,
+    hidden (mkanc name attrs idx :: p) attrs = true ->
+    process (NElem html name attrs kids) p idx = Ok None.
+  Proof. intros. rewrite process_eq. apply pbody_hidden. assumption. Qed.
+
+  (* (1) for a hidden element child: whatever the parent is, whatever the child contains *)
+  Corollary local_deletion_hidden : forall html name attrs l1 l2 p idx chtml cname cattrs ckids,
+    sheet_no_nth sd = true ->
+    hidden (mkanc cname cattrs (1 + count_elems l1)%Z :: mkanc name attrs idx :: p) cattrs = true ->
+    process (NElem html name attrs (l1 ++ NElem chtml cname cattrs ckids :: l2)) p idx =
+    process (NElem html name attrs (l1 ++ l2)) p idx.
+  Proof.
+    intros html name attrs l1 l2 p idx chtml cname cattrs ckids Hn Hh.
+    apply local_deletion_gen; [right; exact Hn|]. apply process_hidden. exact Hh.
+  Qed.
+
   Lemma pk_prune : forall proc proc' pr kids,
     Forall (fun k => forall i i', proc k i = match pr k i with
                                             | None => Ok None
@@ -566,9 +600,12 @@ Proof.
 Qed.
 
 (* 7b. ... and the document's style information itself is never looked at: removing every
-   `style` attribute and emptying every html <style> element changes nothing. *)
+   `style`, `color` and `bgcolor` attribute (the three attributes CssParse.inline_styles
+   reads) and emptying every html <style> element changes nothing. *)
+Definition is_css_attr (k : text) : bool :=
+  attr_is k s_style || attr_is k s_colorattr || attr_is k s_bgcolor.
 Definition strip_attrs (attrs : list (text * text)) : list (text * text) :=
-  filter (fun kv => negb (attr_is (fst kv) s_style)) attrs.
+  filter (fun kv => negb (is_css_attr (fst kv))) attrs.
 
 Fixpoint strip (n : node) : node :=
   match n with
@@ -607,6 +644,28 @@ Proof.
   rewrite (H x Ef) in Eg. discriminate Eg.
 Qed.
 
+Lemma css_attr_excl : forall k l,
+  l <> s_style -> l <> s_colorattr -> l <> s_bgcolor ->
+  attr_is k l = true -> is_css_attr k = false.
+Proof.
+  intros k l H1 H2 H3 H. unfold is_css_attr.
+  destruct (attr_is k s_style) eqn:E1;
+    [rewrite (attr_is_excl k s_style l (not_eq_sym H1) E1) in H; discriminate H|].
+  destruct (attr_is k s_colorattr) eqn:E2;
+    [rewrite (attr_is_excl k s_colorattr l (not_eq_sym H2) E2) in H; discriminate H|].
+  destruct (attr_is k s_bgcolor) eqn:E3;
+    [rewrite (attr_is_excl k s_bgcolor l (not_eq_sym H3) E3) in H; discriminate H|].
+  reflexivity.
+Qed.
+
+Lemma css_attr_excl' : forall k l,
+  l <> s_style -> l <> s_colorattr -> l <> s_bgcolor ->
+  is_css_attr k = true -> attr_is k l = false.
+Proof.
+  intros k l H1 H2 H3 H. destruct (attr_is k l) eqn:E; [|reflexivity].
+  rewrite (css_attr_excl k l H1 H2 H3 E) in H. discriminate H.
+Qed.
+
 Ltac not_style :=
   let kv := fresh "kv" in let H := fresh "H" in
   intros kv H; apply negb_true_iff;
@@ -614,14 +673,15 @@ Ltac not_style :=
          | (_ && _)%bool = true => apply andb_true_iff in H; destruct H as [H _]
          end;
   match type of H with
-  | attr_is _ ?l = true => apply (attr_is_excl _ l s_style); [discriminate|exact H]
+  | attr_is _ ?l = true => apply (css_attr_excl _ l); [discriminate|discriminate|discriminate|exact H]
   end.
 
-Lemma find_attr_strip : forall attrs k, k <> s_style ->
+Lemma find_attr_strip : forall attrs k,
+  k <> s_style -> k <> s_colorattr -> k <> s_bgcolor ->
   find_attr (strip_attrs attrs) k = find_attr attrs k.
 Proof.
-  intros attrs k Hk. unfold find_attr, strip_attrs. rewrite find_filter; [reflexivity|].
-  intros kv H. apply negb_true_iff. apply (attr_is_excl _ k s_style Hk H).
+  intros attrs k H1 H2 H3. unfold find_attr, strip_attrs. rewrite find_filter; [reflexivity|].
+  intros kv H. apply negb_true_iff. apply (css_attr_excl _ k H1 H2 H3 H).
 Qed.
 
 Lemma td_colspan_strip : forall attrs, td_colspan (strip_attrs attrs) = td_colspan attrs.
@@ -633,9 +693,10 @@ Proof.
               else acc).
   generalize 1.
   induction attrs as [|kv attrs IH]; intros acc; [reflexivity|]. cbn [filter fold_left].
-  destruct (attr_is (fst kv) s_style) eqn:Es; cbn [negb fold_left].
+  destruct (is_css_attr (fst kv)) eqn:Es; cbn [negb fold_left].
   - replace (f acc kv) with acc; [apply IH|]. unfold f.
-    rewrite (attr_is_excl _ s_style s_colspan ltac:(discriminate) Es). reflexivity.
+    rewrite (css_attr_excl' _ s_colspan ltac:(discriminate) ltac:(discriminate) ltac:(discriminate) Es).
+    reflexivity.
   - apply IH.
 Qed.
 
@@ -644,9 +705,9 @@ Lemma fragment_of_strip : forall name is_a attrs,
 Proof.
   intros name is_a attrs. unfold fragment_of, strip_attrs. rewrite find_filter; [reflexivity|].
   intros kv H. apply negb_true_iff. apply orb_true_iff in H. destruct H as [H|H].
-  - apply (attr_is_excl _ s_id s_style ltac:(discriminate) H).
+  - apply (css_attr_excl _ s_id); [discriminate|discriminate|discriminate|exact H].
   - apply andb_true_iff in H. destruct H as [_ H].
-    apply (attr_is_excl _ s_name s_style ltac:(discriminate) H).
+    apply (css_attr_excl _ s_name); [discriminate|discriminate|discriminate|exact H].
 Qed.
 
 Lemma img_attrs_strip : forall attrs title src,
@@ -655,10 +716,11 @@ Lemma img_attrs_strip : forall attrs title src,
 Proof.
   induction attrs as [|[k v] attrs IH]; intros title src Hinv; [reflexivity|].
   unfold strip_attrs. cbn [filter fst]. fold (strip_attrs attrs).
-  destruct (attr_is k s_style) eqn:Es; cbn [negb].
+  destruct (is_css_attr k) eqn:Es; cbn [negb].
   - cbn [img_attrs].
-    rewrite (attr_is_excl _ s_style s_alt ltac:(discriminate) Es).
-    rewrite (attr_is_excl _ s_style s_src ltac:(discriminate) Es). cbn [andb].
+    rewrite (css_attr_excl' _ s_alt ltac:(discriminate) ltac:(discriminate) ltac:(discriminate) Es).
+    rewrite (css_attr_excl' _ s_src ltac:(discriminate) ltac:(discriminate) ltac:(discriminate) Es).
+    cbn [andb].
     destruct title as [t|], src as [s|]; try (apply IH; exact Hinv). destruct Hinv.
   - cbn [img_attrs].
     destruct (if attr_is k s_alt && negb match v with [] => true | _ :: _ => false end
@@ -671,8 +733,8 @@ Lemma build_element_strip : forall name attrs computed cs,
   build_element name (strip_attrs attrs) computed cs = build_element name attrs computed cs.
 Proof.
   intros name attrs computed cs. unfold build_element.
-  rewrite (find_attr_strip attrs s_href ltac:(discriminate)).
-  rewrite (find_attr_strip attrs s_start ltac:(discriminate)).
+  rewrite (find_attr_strip attrs s_href ltac:(discriminate) ltac:(discriminate) ltac:(discriminate)).
+  rewrite (find_attr_strip attrs s_start ltac:(discriminate) ltac:(discriminate) ltac:(discriminate)).
   rewrite td_colspan_strip. reflexivity.
 Qed.
 
@@ -695,8 +757,7 @@ Proof.
   destruct (names [[105;109;103]] name); [reflexivity|].
   destruct (names [[98;114]] name); [reflexivity|].
   destruct (names _ name); [reflexivity|].
-  destruct rk as [cs| | |]; cbn [bind]; try reflexivity.
-  rewrite build_element_strip. reflexivity.
+  destruct rk as [cs| | |]; cbn [bind]; [rewrite build_element_strip|..]; reflexivity.
 Qed.
 
 Lemma pbody_style_kids : forall sd ri name attrs me rk rk',
@@ -759,8 +820,9 @@ Proof.
   apply Forall_forall. intros k _ i. apply process_strip. constructor.
 Qed.
 
-(* (4) With document CSS disabled the render tree is that of the document with all `style`
-   attributes removed and all html <style> elements emptied - whatever the CSS front end. *)
+(* (4) With document CSS disabled the render tree is that of the document with all `style`,
+   `color`, `bgcolor` attributes removed and all html <style> elements emptied - whatever
+   the CSS front end. *)
 Theorem nodoccss_strip : forall inl dr inl' dr' c doc,
   c_use_doc_css c = false ->
   to_render_tree inl dr c doc = to_render_tree inl' dr' c (map strip doc).
@@ -779,3 +841,173 @@ Proof.
   rewrite (nodoccss_strip inl dr inl dr c doc1 Hu), (nodoccss_strip inl dr inl dr c doc2 Hu), E.
   reflexivity.
 Qed.
+
+(* ====================================================================== *)
+(* 8. Examples (non-vacuity), necessity of the hypotheses, observations    *)
+(* ====================================================================== *)
+Module PruneExamples.
+Import String Ascii.
+Local Open Scope string_scope.
+
+Fixpoint lN (s : string) : list N :=
+  match s with EmptyString => [] | String a s' => N_of_ascii a :: lN s' end.
+Definition t (s : string) : text :=
+  List.map (fun c => mkchr c (Some 1) ((c =? 32)%N || (c =? 10)%N) 16) (lN s).
+Definition el (name : string) (attrs : list (string * string)) (kids : list node) : node :=
+  NElem true (t name) (List.map (fun kv => (t (fst kv), t (snd kv))) attrs) kids.
+Definition tx (s : string) : node := NText (t s).
+Definition hide : list (string * string) := [("style", "display:none")].
+(* plain decorator, footnotes, document CSS enabled / disabled *)
+Definition cfg : config := set_doc_css cfg_plain.
+Definition out (c : config) (doc : list node) : res (list N) :=
+  match string_from_read inline_styles doc_rules c doc 30 with
+  | Ok r => Ok (cps r) | TooNarrow => TooNarrow | Panic s => Panic s | OutOfFuel => OutOfFuel
+  end.
+Definition the_sd (c : config) (doc : list node) : styledata :=
+  match effective_sd doc_rules c doc with Ok sd => sd | _ => styledata0 end.
+
+(* ---- a document with hidden parts in every kind of parent: inline child of a paragraph,
+   list item of an <ol>, a table row and a table cell, the only child of a link, an element
+   with an id hidden by the zero-height/hidden-overflow idiom, a descendant selector ---- *)
+Definition doc1 : list node :=
+  [el "html" []
+    [el "head" [] [el "style" [] [tx "div.k b { display: none }"]];
+     el "body" []
+      [el "p" [] [tx "a"; el "span" hide [tx "b"]; tx "c"];
+       el "ol" [] [el "li" [] [tx "x"]; el "li" hide [tx "y"]; el "li" [] [tx "z"]];
+       el "table" []
+         [el "tbody" []
+            [el "tr" hide [el "td" [] [tx "h"]];
+             el "tr" [] [el "td" [] [tx "v"]; el "td" hide [tx "w"]]]];
+       el "a" [("href", "u")] [el "b" hide [tx "q"]];
+       el "div" [("id", "i"); ("style", "height:0;overflow:hidden")] [tx "zz"];
+       el "div" [("class", "j k")] [el "p" [] [tx "m"; el "b" [] [tx "n"]]]]]].
+
+Definition doc1_pruned : list node :=
+  [el "html" []
+    [el "head" [] [el "style" [] [tx "div.k b { display: none }"]];
+     el "body" []
+      [el "p" [] [tx "a"; tx "c"];
+       el "ol" [] [el "li" [] [tx "x"]; el "li" [] [tx "z"]];
+       el "table" [] [el "tbody" [] [el "tr" [] [el "td" [] [tx "v"]]]];
+       el "a" [("href", "u")] [];
+       el "div" [("class", "j k")] [el "p" [] [tx "m"]]]]].
+
+Example ex_doc1_prune :
+  prune_doc (the_sd cfg doc1) (c_use_doc_css cfg) inline_styles doc1 = doc1_pruned.
+Proof. vm_compute. reflexivity. Qed.
+
+(* the global theorem applies to doc1 (all hypotheses hold) ... *)
+Example ex_doc1_equiv :
+  to_render_tree inline_styles doc_rules cfg doc1 =
+  to_render_tree inline_styles doc_rules cfg doc1_pruned.
+Proof.
+  rewrite <- ex_doc1_prune.
+  apply to_render_tree_prune_doc; vm_compute; reflexivity.
+Qed.
+(* ... and the output is "ac / 1. x / 2. z / (table) v / m": nothing of b y h w q zz n, no
+   fragment marker, no link, no footnote *)
+Example ex_doc1_out :
+  out cfg doc1 = Ok (lN "ac" ++ [10] ++ lN "1. x" ++ [10] ++ lN "2. z" ++ [10; 10; 9472; 10] ++
+                     lN "v" ++ [10; 9472; 10; 10] ++ lN "m" ++ [10])%list.
+Proof. vm_compute. reflexivity. Qed.
+
+(* (1) LOCAL on a concrete parent: the hidden <li> in the <ol> *)
+Example ex_local :
+  let sd := the_sd cfg doc1 in
+  let li s a := el "li" a [tx s] in
+  process sd true inline_styles (el "ol" [] ([li "x" []] ++ li "y" hide :: [li "z" []])) [] 1%Z =
+  process sd true inline_styles (el "ol" [] ([li "x" []] ++ [li "z" []])) [] 1%Z.
+Proof.
+  cbv zeta. apply local_deletion_gen; [right|]; vm_compute; reflexivity.
+Qed.
+
+(* (2) on concrete chains: same names/classes/ids, different indices *)
+Example ex_style_sim :
+  let sd := the_sd cfg doc1 in
+  let p i j := [mkanc (t "b") [] i; mkanc (t "p") [] j; mkanc (t "div") [(t "class", t "j k")] 7%Z] in
+  computed_style sd (p 2%Z 1%Z) [] = computed_style sd (p 5%Z 3%Z) [] /\
+  ws_val (c_display (cs_core (computed_style sd (p 2%Z 1%Z) []))) = Some tt.
+Proof.
+  cbv zeta. split; [|vm_compute; reflexivity].
+  apply computed_style_sim; [vm_compute; reflexivity|].
+  repeat constructor; discriminate.
+Qed.
+
+(* ---- the hypothesis sheet_no_nth is necessary: deleting a hidden element renumbers its
+   later siblings.  <style>p:nth-child(1){display:none}</style>
+   <div><p style="display:none">a</p><p>b</p><p>c</p></div>  renders "b / c"; with the hidden
+   first <p> deleted, "b" becomes the first child and disappears as well. ---- *)
+Definition doc_nth (with_a : bool) : list node :=
+  [el "style" [] [tx "p:nth-child(1){display:none}"];
+   el "div" [] ((if with_a then [el "p" hide [tx "a"]] else []) ++
+                [el "p" [] [tx "b"]; el "p" [] [tx "c"]])%list].
+Example ex_nth_needed :
+  sheet_no_nth (the_sd cfg (doc_nth true)) = false /\
+  prune_doc (the_sd cfg (doc_nth true)) true inline_styles (doc_nth true) = doc_nth false /\
+  out cfg (doc_nth true) = Ok (lN "b" ++ [10; 10] ++ lN "c" ++ [10])%list /\
+  out cfg (doc_nth false) = Ok (lN "c" ++ [10])%list.
+Proof. vm_compute. repeat split; reflexivity. Qed.
+
+(* ---- OBSERVATION (limit of "as if the hidden subtrees had been deleted" at the Api level):
+   the rules of a <style> element are collected from the whole document, also from inside a
+   hidden subtree (and from a hidden <style> element itself).  So deleting the hidden subtree
+   from the DOCUMENT also deletes rules:
+   <div style="display:none"><style>p{display:none}</style></div><p>x</p>  renders "", the
+   document with the hidden <div> deleted renders "x".  (Browsers agree with html2text here.)
+   This is why `to_render_tree_prune` prunes with the style data of the original document and
+   `to_render_tree_prune_doc` asks that pruning leaves the effective style data unchanged. ---- *)
+Definition doc_sh : list node :=
+  [el "div" hide [el "style" [] [tx "p{display:none}"]]; el "p" [] [tx "x"]].
+Example style_in_hidden_subtree :
+  out cfg doc_sh = Ok [] /\
+  prune_doc (the_sd cfg doc_sh) true inline_styles doc_sh = [] /\
+  out cfg [el "p" [] [tx "x"]] = Ok (lN "x" ++ [10])%list /\
+  effective_sd doc_rules cfg [el "p" [] [tx "x"]] <> effective_sd doc_rules cfg doc_sh.
+Proof. vm_compute. repeat split; try reflexivity. discriminate. Qed.
+
+(* ---- (4): document CSS disabled ---- *)
+Definition doc4 : list node :=
+  [el "style" [] [tx "p{display:none}"];
+   el "p" [("style", "display:none"); ("id", "f"); ("color", "#fff")] [tx "x"];
+   el "table" [] [el "tr" [] [el "td" [("bgcolor", "red"); ("colspan", "2"); ("style", "")] [tx "y"]]]].
+Definition doc4_stripped : list node :=
+  [el "style" [] [];
+   el "p" [("id", "f")] [tx "x"];
+   el "table" [] [el "tr" [] [el "td" [("colspan", "2")] [tx "y"]]]].
+Example ex_strip : List.map strip doc4 = doc4_stripped.
+Proof. vm_compute. reflexivity. Qed.
+Example ex_nodoccss :
+  to_render_tree inline_styles doc_rules cfg_plain doc4 =
+  to_render_tree (fun _ => Panic 0) (fun _ => Panic 0) cfg_plain doc4_stripped.
+Proof. rewrite <- ex_strip. apply nodoccss_strip. reflexivity. Qed.
+Example ex_nodoccss_out :
+  out cfg_plain doc4 = out cfg_plain doc4_stripped /\
+  out cfg doc4 = Ok [] /\
+  match out cfg_plain doc4 with Ok (c :: _) => c = 120 | _ => False end.
+Proof. vm_compute. repeat split; reflexivity. Qed.
+
+(* ---- OBSERVATION: only html <style> elements are silent.  A <style> element in another
+   namespace (the HTML parser produces one for <svg><style>..</style></svg>) is an ordinary
+   container: its CSS source text is rendered, with document CSS on or off. ---- *)
+Definition doc_svg : list node :=
+  [NElem false (t "svg") [] [NElem false (t "style") [] [tx "p{display:none}"]]; el "p" [] [tx "x"]].
+Example svg_style_is_text :
+  out cfg_plain doc_svg = Ok (lN "p{display:none}" ++ [10; 10] ++ lN "x" ++ [10])%list /\
+  out cfg doc_svg = Ok (lN "p{display:none}" ++ [10; 10] ++ lN "x" ++ [10])%list.
+Proof. vm_compute. split; reflexivity. Qed.
+End PruneExamples.
+
+Print Assumptions computed_style_sim.
+Print Assumptions process_sim_gen.
+Print Assumptions local_deletion_gen.
+Print Assumptions local_deletion_hidden.
+Print Assumptions prune_equiv.
+Print Assumptions prune_doc_idem.
+Print Assumptions to_render_tree_prune.
+Print Assumptions to_render_tree_prune_doc.
+Print Assumptions to_render_tree_prune_nodoccss.
+Print Assumptions nodoccss_frontend_indep.
+Print Assumptions nodoccss_strip.
+Print Assumptions nodoccss_styles_irrelevant.
+Print Assumptions PruneExamples.ex_doc1_equiv.
